@@ -6,21 +6,26 @@ import os
 VERIF = os.path.dirname(os.path.dirname(os.path.abspath(__file__)))
 
 HDR_NOTE = ("Trusted: TLC; the dependency's ConvertToWork/ConvertToDifficulty and SHA-256; fabricated headers with "
-            "difficulty and split protection disabled (C02/C03 cover those paths). Spec->code behaviours exclude equal-work "
-            "ties and submissions whose parent the properties do not promise is still in memory (DESIGN.md 2.2).")
+            "difficulty and split protection disabled (C02/C03 cover those paths). Where several tips have equal work the spec leaves "
+            "the choice open and the replay follows the behaviour whose choices are the implementation's (DESIGN.md AB.2); "
+            "submissions whose parent the properties do not promise is still in memory are not generated (DESIGN.md 2.2).")
 
 CHECKS = {
     "C01": dict(level="model_checking", engine="headers", ref="3 C01",
                 text="TipMaxWork / NoWorkLoss checked exhaustively by TLC on HeaderChain (all tree shapes over N pool blocks); "
                      "TLC-generated behaviours (simulation, and bounded-exhaustive BFS in thorough) replayed on the real "
                      "headers.Repository at stretch factors 1,3,400(,real prune depth): tip, height, work and the hash/header "
-                     "at every height compared with the spec after every operation.",
-                technique="TLA+ model checking (TLC) + spec-to-code behaviour replay"),
+                     "at every height compared with the spec after every operation (incl. equal-work ties and version-0 / empty "
+                     "stores). Schedules: several peer goroutines, a maintenance caller and a (slow or 10000-behind) subscriber "
+                     "run concurrently on the real repository; the recorded calls are linearized by TLC (HeaderChainLin).",
+                technique="TLA+ model checking (TLC) + spec-to-code behaviour replay + linearization of concurrent traces by TLC"),
     "C07": dict(level="model_checking", engine="headers", ref="3 C07",
                 text="StreamReconstructs / OnlyBestAnnounced are consequences checked by TLC of the operationally specified "
                      "stream; on the real repository every subscriber channel is drained after every operation and compared "
-                     "with the spec's delta, and the subscriber's own reconstruction is compared with the reported chain.",
-                technique="TLA+ model checking (TLC) + spec-to-code behaviour replay"),
+                     "with the spec's delta, and the subscriber's own reconstruction is compared with the reported chain. Schedules: "
+                     "concurrent peers with a subscriber that is slow or 10000 headers behind (channel full); TLC linearizes "
+                     "the recorded calls (HeaderChainLin) and the reconstruction must be the reported chain.",
+                technique="TLA+ model checking (TLC) + spec-to-code behaviour replay + linearization of concurrent traces by TLC"),
     "C08": dict(level="model_checking", engine="headers", ref="3 C08",
                 text="Submit's case list is the reference verdict; RefusalChangesNothing is an action property checked by TLC "
                      "for MaxDepth 0..2; replay compares the error class of every submission, the full projection before/after "
@@ -38,7 +43,8 @@ CHECKS = {
                 technique="TLA+ model checking (TLC) + spec-to-code behaviour replay"),
     "C11": dict(level="model_checking", engine="headers", ref="3 C11",
                 text="SaveLoadSame checked by TLC; replay loads a fresh Repository from the MockStorage after Save and "
-                     "continues the behaviour on it (tip, chain, lookups, stored invalid list, later verdicts).",
+                     "continues the behaviour on it (tip, chain, lookups, stored invalid list, later verdicts); LoadLegacy: "
+                     "stores holding only version-0 header files (migration) and empty stores are loaded first.",
                 technique="TLA+ model checking (TLC) + spec-to-code behaviour replay"),
     "C12": dict(level="fault_enumeration", engine="headers", ref="3 C12",
                 text="Every prefix of the journalled Write/Remove sequence of every Clean and Save in the TLC behaviours is "
@@ -83,7 +89,10 @@ CHECKS.update({
                 text="NoSinkBeforeReady, ReadyNeedsHandshakeAndBSV, VerifyOnlyDisconnects checked by TLC on PeerSession.tla "
                      "(read loop + asynchronous handshake goroutine); sessions enumerated by TLC (all classes, BFS and "
                      "simulation, full and verify-only nodes, with and without tx manager) are played by a scripted peer against "
-                     "a real BitcoinNode over net.Pipe with spies on the header repository, address book and tx processor.",
+                     "a real BitcoinNode over net.Pipe with spies on the header repository, address book and tx processor. "
+                     "Selection: SelectedIsReady / FindsOne checked by TLC on NodeSelect.tla (the manager's list walk); its "
+                     "behaviours are replayed on the real NodeManager with real nodes in the states unverified (3 sub-states) / "
+                     "ready / busy / stopped and a request must never reach an unverified peer.",
                 technique="TLA+ model checking (TLC) + spec-generated sessions replayed on the real node", note=SESS_NOTE),
     "C14": dict(level="model_checking", engine="session", ref="3 C14",
                 text="PingAnswered, NeverDeafWhileReady, InSyncWhileReady checked by TLC on PeerSession.tla; conformant "
@@ -95,7 +104,7 @@ CHECKS.update({
                 text="Daa.tla transcribes the network's 144-block rule as a case analysis (median-of-three by the network's "
                      "swap network, signed span clamped to [72,288] blocks); SelectsMedian / SpanInRange checked by TLC over every "
                      "timestamp pattern of the six endpoint blocks; every case (4096 in quick) is built as a real 150-header chain "
-                     "with distinct bits, on the main chain and on a fork, and the bits the real code requires are compared with "
+                     "with distinct bits, on the main chain, on a fork and after forks at the endpoint blocks, and the bits the real code requires are compared with "
                      "the network's formula applied to the endpoints and span TLC selected. Plus: all 2820 real fixture headers "
                      "with the difficulty check on; easy-target headers with wrong bits on the tip and as fork headers; "
                      "single-field mutations of real headers with an independently predicted verdict; all 256 exponent bytes x "
@@ -106,7 +115,7 @@ CHECKS.update({
     "C03": dict(level="model_checking", engine="split+session", ref="3 C03",
                 text="AtSplitOnlyBSV / ForeignAlwaysRefused / BSVAccepted checked by TLC on SplitGuard.tla (every order of offers "
                      "around the split height: real chain, BSV and BCH split headers, other headers at the split height on the "
-                     "main chain and on forks created below it, unknown parents); those offer sequences are replayed on a mainnet "
+                     "main chain and on forks created below it, a heavier fork of a fork with maintenance at any point, unknown parents); those offer sequences are replayed on a mainnet "
                      "headers.Repository built on the real fixture chain with split protection on (and, sampled, with the "
                      "difficulty check on). Peer side: OnlyBSVVerifies / ReadyNeedsHandshakeAndBSV on PeerSession.tla and every "
                      "class of reply to the verification request, at every handshake position, for full and verify-only nodes, "
@@ -120,7 +129,8 @@ CHECKS.update({
                      "reorganisations during a round, abandoning orphaned blocks). Every initial state (chain length x processed "
                      "subset x start height) is exported and its round replayed on the real NodeManager + BlockManager + "
                      "BlockDownloader with a real headers.Repository and a scripted block source; seed-chosen dynamic scenarios "
-                     "(triggers and headers mid-round, source failures, 1 and 2 concurrent downloads, reorg of a pending block) "
+                     "(triggers and headers mid-round, source failures, 1 and 2 concurrent downloads, reorg of a pending block, "
+                     "reorg after the rounds completed) "
                      "are recorded and validated by TLC (BlockSyncTrace) with the C05 invariants evaluated at every step; the "
                      "trigger hand-over is stressed with aligned header arrivals.",
                 technique="TLA+ model checking incl. liveness (TLC) + scenario replay + trace validation by TLC",
@@ -149,7 +159,8 @@ CHECKS.update({
                      "timeouts) checked by TLC on BlockDownload.tla over every interleaving of Run, the node's handleBlock, "
                      "Cancel, Stop and interrupt; AtMostOneTerminal, CompleteOnlyAfterOk, ConcurrencyBound, ListDrains on "
                      "BlockManage.tla. Every behaviour of BlockDownloadGen is replayed on a real BlockDownloader; the node-side "
-                     "window runs on the real BitcoinNode over net.Pipe with seed-chosen schedules; traces of the real "
+                     "window runs on the real BitcoinNode over net.Pipe with seed-chosen schedules (incl. blocks larger than the 1000-slot "
+                     "hand-over channel with a held processor); traces of the real "
                      "BlockManager with a scripted block source are validated by TLC against BlockManage.tla.",
                 technique="TLA+ model checking incl. liveness (TLC) + behaviour replay + trace validation by TLC",
                 note="Trusted: TLC. The downloader's 2 min / 1 h / 10 min timers are not relied upon. In the call-granularity "
@@ -159,7 +170,8 @@ CHECKS.update({
                 text="NoDuplicates, GetExact, SaveLoadSame, CutKeepsPrefix, ScoreIsSum checked by TLC on PeerBook.tla; simulated "
                      "call sequences replayed on the real StoragePeerRepository with the whole book compared after every call; "
                      "every proper prefix of every saved file loaded (fault enumeration); generated hostile files loaded in "
-                     "isolated worker processes; concurrent callers linearized by TLC (PeerBookLin).",
+                     "isolated worker processes; concurrent callers (incl. Saves on a storage whose writes take a while, with "
+                     "per-caller program order) linearized by TLC (PeerBookLin) with the stored file compared at the end.",
                 technique="TLA+ model checking (TLC) + behaviour replay + file-prefix enumeration + linearization by TLC",
                 note="Trusted: TLC. Last-seen times are wall-clock seconds: compared as zero/non-zero with the spec and for "
                      "exact equality across Save+Load."),
@@ -206,13 +218,15 @@ def main():
             {"name": "headers", "path": "lib/engine_headers.py",
              "serves_properties": ["C01", "C07", "C08", "C09", "C10", "C11", "C12", "C17", "C18", "C19"],
              "kind_free_text": "specs/HeaderChain.tla (exhaustive TLC), specs/HeaderChainGen.tla (behaviour generation), "
-                               "harness `hdr` replay on the real headers.Repository, specs/HeaderLocatorTrace.tla"},
+                               "harness `hdr` replay on the real headers.Repository, specs/HeaderLocatorTrace.tla, LocatorLinear.tla, "
+                               "MerkleProofs.tla, specs/HeaderChainLin.tla + harness `hdrc` (concurrent peers)"},
             {"name": "blockverify", "path": "lib/prop_c04.py", "serves_properties": ["C04"],
              "kind_free_text": "specs/BlockVerify.tla, harness `blk` on the real BlockDownloader"},
             {"name": "txmanager", "path": "lib/prop_c06.py", "serves_properties": ["C06"],
              "kind_free_text": "specs/TxManager.tla, TxManagerGen.tla, TxManagerLin.tla, harness `txm` / `txmc`"},
             {"name": "session", "path": "lib/engine_session.py", "serves_properties": ["C13", "C14"],
-             "kind_free_text": "specs/PeerSession.tla, PeerSessionGen.tla, harness `sess` (scripted peer over net.Pipe)"},
+             "kind_free_text": "specs/PeerSession.tla, PeerSessionGen.tla, harness `sess` (scripted peer over net.Pipe); "
+                               "specs/NodeSelect.tla, NodeSelectGen.tla, harness `nsel` (real NodeManager)"},
             {"name": "daa", "path": "lib/prop_c02.py", "serves_properties": ["C02"],
              "kind_free_text": "specs/Daa.tla, harness `daa` (cases / real / mutate / bits)"},
             {"name": "split+session", "path": "lib/prop_c03.py", "serves_properties": ["C03"],
